@@ -65,6 +65,10 @@ pub enum Sys {
 	/// the output file was opened for writing; `true` = with O_TRUNC
 	Open(bool),
 	Write { pos: u64, data: Vec<u8> },
+	/// bytes that reached the file through sendfile / copy_file_range (content resolved from the final file)
+	CopyIn { pos: u64, len: u64 },
+	/// another file was renamed over the output path (atomic replacement by the complete content)
+	RenamedOver,
 	Truncate(u64),
 }
 
@@ -106,6 +110,27 @@ pub fn parse_strace(log: &str, out_path: &str) -> Result<Vec<Sys>, String> {
 					if args.contains("O_WRONLY") || args.contains("O_RDWR") {
 						ops.push(Sys::Open(args.contains("O_TRUNC")));
 					}
+				}
+			}
+			"rename" | "renameat" | "renameat2" => {
+				let q: Vec<&str> = args.split('"').collect();
+				// the destination is the last quoted path
+				if q.len() >= 4 && retn == 0 {
+					let dest = String::from_utf8_lossy(&unhex(q[q.len() - 2])).to_string();
+					if dest == out_path || (!dest.starts_with('/') && out_path.ends_with(&format!("/{dest}"))) {
+						ops.push(Sys::RenamedOver);
+					}
+				}
+			}
+			"sendfile" | "copy_file_range" => {
+				if retn <= 0 {
+					continue;
+				}
+				let parts: Vec<&str> = args.split(',').collect();
+				let out_fd: i64 = if name == "sendfile" { parts.first() } else { parts.get(2) }.map(|x| x.trim().parse().unwrap_or(-1)).unwrap_or(-1);
+				if let Some(pos) = fds.get(&out_fd).cloned() {
+					ops.push(Sys::CopyIn { pos, len: retn as u64 });
+					fds.insert(out_fd, pos + retn as u64);
 				}
 			}
 			"close" => {
@@ -195,7 +220,7 @@ pub fn run_syscall_case(cx: &CaseCtx, rep: &mut Report, format: &str, real_binar
 		rep.count("syscall_traces_over_a_preexisting_container", 1);
 	}
 	let mut cmd = std::process::Command::new("strace");
-	cmd.arg("-f").arg("-o").arg(&trace).arg("-e").arg("trace=open,openat,close,dup,dup2,dup3,fcntl,write,pwrite64,lseek,ftruncate").arg("-xx").arg("-s").arg("67108864");
+	cmd.arg("-f").arg("-o").arg(&trace).arg("-e").arg("trace=open,openat,close,dup,dup2,dup3,fcntl,write,pwrite64,lseek,ftruncate,rename,renameat,renameat2,sendfile,copy_file_range").arg("-xx").arg("-s").arg("67108864");
 	if real_binary {
 		let Some(bin) = crate::server::binary() else {
 			rep.inconclusive("versatiles binary not built");
@@ -211,7 +236,14 @@ pub fn run_syscall_case(cx: &CaseCtx, rep: &mut Report, format: &str, real_binar
 	} else {
 		cmd.arg(std::env::current_exe().unwrap()).arg("c12-write").arg(format).arg(cx.seed.to_string()).arg(cx.case.to_string()).arg(&out);
 	}
-	cx.progress(&format!("strace {format} real_binary={real_binary}"));
+	// the system's temporary directory on another file system (tmpfs) than the target: a writer that builds the
+	// container elsewhere and moves it into place then has to copy
+	let other_fs_tmp = std::path::Path::new("/dev/shm").is_dir() && (cx.case / 2) % 2 == 1;
+	if other_fs_tmp {
+		cmd.env("TMPDIR", "/dev/shm");
+		rep.count("syscall_traces_with_tmpdir_on_another_file_system", 1);
+	}
+	cx.progress(&format!("strace {format} real_binary={real_binary} preexisting={preexisting} tmpdir_other_fs={other_fs_tmp}"));
 	let st = cmd.current_dir(&dir).stdout(std::process::Stdio::null()).stderr(std::process::Stdio::null()).status();
 	if !matches!(st, Ok(s) if s.success()) {
 		rep.inconclusive(&format!("traced writer did not run: {st:?}"));
@@ -226,7 +258,29 @@ pub fn run_syscall_case(cx: &CaseCtx, rep: &mut Report, format: &str, real_binar
 		}
 	};
 	// the replayed log must reproduce the file on disk, otherwise the log is not trusted
+	let disk = std::fs::read(&out).unwrap_or_default();
+	// content that arrived by an in-kernel copy, or by renaming a complete file into place, is taken from the final file
+	let mut ops = ops;
+	for o in ops.iter_mut() {
+		match o {
+			Sys::CopyIn { pos, len } => {
+				let (a, b) = (*pos as usize, (*pos + *len) as usize);
+				if b > disk.len() {
+					rep.inconclusive("an in-kernel copy reaches beyond the final file");
+					return;
+				}
+				*o = Sys::Write { pos: *pos, data: disk[a..b].to_vec() };
+				rep.count("syscalls_copying_into_the_output_file", 1);
+			}
+			Sys::RenamedOver => rep.count("renames_over_the_output_path", 1),
+			_ => {}
+		}
+	}
+	let ops = ops;
 	let step = |img: &mut Vec<u8>, o: &Sys| match o {
+		Sys::CopyIn { .. } => {}
+		// a rename is atomic: the path shows the complete other file or the old state, never a torn mix
+		Sys::RenamedOver => *img = disk.clone(),
 		Sys::Open(true) => img.clear(),
 		Sys::Open(false) => {}
 		Sys::Write { pos, data } => apply(img, *pos, data),
@@ -236,11 +290,10 @@ pub fn run_syscall_case(cx: &CaseCtx, rep: &mut Report, format: &str, real_binar
 	for o in &ops {
 		step(&mut full, o);
 	}
-	if !ops.iter().any(|o| matches!(o, Sys::Open(_))) {
+	if !ops.iter().any(|o| matches!(o, Sys::Open(_) | Sys::RenamedOver)) {
 		rep.inconclusive("the syscall log shows no open of the output file for writing");
 		return;
 	}
-	let disk = std::fs::read(&out).unwrap_or_default();
 	if disk != full {
 		rep.inconclusive(&format!("replaying the syscall log gives {} bytes, the file on disk has {} (log incomplete?)", full.len(), disk.len()));
 		return;
@@ -266,7 +319,7 @@ pub fn run_syscall_case(cx: &CaseCtx, rep: &mut Report, format: &str, real_binar
 		if !started {
 			if k < n {
 				step(&mut image, &ops[k]);
-				started = matches!(ops[k], Sys::Open(_));
+				started = matches!(ops[k], Sys::Open(_) | Sys::RenamedOver);
 			}
 			continue;
 		}
@@ -296,7 +349,7 @@ pub fn run_syscall_case(cx: &CaseCtx, rep: &mut Report, format: &str, real_binar
 					rep.violation(
 						&format!("{format}|syscall|opens-but-wrong"),
 						"a crash between two system calls leaves a file that opens as a valid container but lacks / misreports tiles",
-						json!({"format": format, "real_binary": real_binary, "preexisting_container_at_output_path": preexisting, "tileset": ts.describe(), "syscalls_total": n, "completed_syscalls": k, "byte_cut_in_next_write": cut, "next_syscall": ops.get(k).map(|o| match o { Sys::Write{pos,data} => format!("write {} bytes at {}", data.len(), pos), Sys::Truncate(n) => format!("truncate to {n}"), Sys::Open(t) => format!("open (truncating: {t})") }), "what": e}),
+						json!({"format": format, "real_binary": real_binary, "preexisting_container_at_output_path": preexisting, "tileset": ts.describe(), "syscalls_total": n, "completed_syscalls": k, "byte_cut_in_next_write": cut, "next_syscall": ops.get(k).map(|o| match o { Sys::Write{pos,data} => format!("write {} bytes at {}", data.len(), pos), Sys::Truncate(n) => format!("truncate to {n}"), Sys::Open(t) => format!("open (truncating: {t})"), _ => "copy".into() }), "what": e}),
 					);
 				}
 			}
